@@ -457,6 +457,25 @@ func runTimeFormulas(c *Ctx) {
 	if nParse == 0 {
 		c.Violated("TIME", "gtfs", "date parsing", "-", "the static parser no longer parses dates with time.ParseInLocation")
 	}
+	// dates are produced by nothing else: time.Date normalises impossible dates (30 February becomes 2 March) instead of
+	// rejecting them, time.Unix is not a civil date at all
+	nOther := 0
+	for _, fn := range staticParseFns(c) {
+		for _, blk := range fn.Blocks {
+			for _, in := range blk.Instrs {
+				if call, isCall := in.(*ssa.Call); isCall {
+					switch calleeName(call) {
+					case "time.Date", "time.Unix", "time.Parse", "(time.Time).AddDate":
+						nOther++
+						c.Violated("TIME", shortName(fn), "date built by "+calleeName(call), p.ipos(call), "the static parser builds an instant with "+calleeName(call)+" instead of time.ParseInLocation(\"20060102\", ...): impossible dates are normalised rather than rejected, or the zone is lost")
+					}
+				}
+			}
+		}
+	}
+	if nOther == 0 {
+		c.Proved("TIME", "gtfs", "dates only from ParseInLocation", "-", "no time.Date / time.Unix / time.Parse / AddDate in the static parser")
+	}
 }
 
 // polyEnv: while the body of an arithmetic helper is read, its parameters stand for the polynomials of the arguments.
@@ -894,6 +913,27 @@ func runReaderDiscipline(c *Ctx) {
 			}
 		}
 	}
+	// the bytes of a file are never fetched with a bare Read: one Read may return fewer bytes than the buffer holds
+	// (a deflated zip member of more than ~32 KiB comes in pieces), so a single call truncates the file
+	var rawReads []string
+	for _, fn := range p.ModFns {
+		pk := fnPkgPath(fn)
+		if strings.HasSuffix(pk, "/cmd") || strings.HasSuffix(pk, "/performance") || strings.Contains(pk, "/internal/") || isProtoPkg(pk) {
+			continue
+		}
+		for _, b := range fn.Blocks {
+			for _, in := range b.Instrs {
+				call, ok := in.(*ssa.Call)
+				if !ok || !call.Call.IsInvoke() || call.Call.Method.Name() != "Read" {
+					continue
+				}
+				if sig, isSig := call.Call.Method.Type().(*types.Signature); isSig && sig.Params().Len() == 1 && sig.Params().At(0).Type().String() == "[]byte" {
+					rawReads = append(rawReads, shortName(fn)+" at "+p.ipos(call))
+				}
+			}
+		}
+	}
+	c.Check(len(rawReads) == 0, "A4", "gtfs", "file bytes are not fetched with a single Read", "-", "no direct io.Reader.Read call in the library (readers are handed to encoding/csv, io.ReadAll, ...)", "a reader is read with one bare Read call ("+strings.Join(rawReads, "; ")+"): for a compressed or large member this returns only the first piece and the rest of the file is silently lost")
 	c.Check(len(bare) == 0 && n > 0, "A4", "csv", "CSV bytes pass through the BOM-aware transformer", p.pos(bom.Pos()),
 		fmt.Sprintf("all %d encoding/csv.NewReader calls read from transform.NewReader(reader, unicode.BOMOverride(...))", n),
 		"a CSV reader is created without the BOM transformer ("+strings.Join(bare, "; ")+"): a byte-order mark ends up inside the first header name, or quoting after a BOM fails")
